@@ -95,8 +95,11 @@ func (e *ExtensionObject) Encode() ([]byte, error) {
 		return buf.Bytes(), buf.Error()
 	}
 
+	// a decoded object of an unknown type or with an empty body has no value
 	body := NewBuffer(nil)
-	body.WriteStruct(e.Value)
+	if e.Value != nil {
+		body.WriteStruct(e.Value)
+	}
 	if body.Error() != nil {
 		return nil, body.Error()
 	}
